@@ -214,7 +214,21 @@ func (w *world) actPublish(t *rapid.T) {
 	_, want := expectedBlockTxns(pub.m)
 	var b coin.Block
 	var cerr error
-	if p := call(func() { b, cerr = pub.v.CreateBlockFromTxns(pool, when) }); p != nil {
+	// two ways to the block: the node's own path (gather the pool, create, sign and execute in one database transaction -
+	// CreateAndExecuteBlock with the block time supplied through the verif hook), or CreateBlockFromTxns over the pool
+	// as read through the public query, signed and executed by the harness
+	var executed *coin.SignedBlock
+	if rapid.Bool().Draw(t, "via_create_and_execute") {
+		var sb coin.SignedBlock
+		if p := call(func() { sb, cerr = pub.v.VerifCreateAndExecuteBlock(when) }); p != nil {
+			t.Fatalf("CreateAndExecuteBlock panicked: %v\n history:\n  %s", p, w.history())
+		}
+		b = sb.Block
+		if cerr == nil {
+			executed = &sb
+		}
+		w.stats["publish_via_create_and_execute"]++
+	} else if p := call(func() { b, cerr = pub.v.CreateBlockFromTxns(pool, when) }); p != nil {
 		t.Fatalf("CreateBlockFromTxns panicked: %v\n history:\n  %s", p, w.history())
 	}
 	if when <= pub.m.Head().Head.Time {
@@ -264,13 +278,20 @@ func (w *world) actPublish(t *rapid.T) {
 	if size > uint64(w.cfg.maxBlockSize) {
 		t.Fatalf("publisher block carries %d bytes of transactions, limit %d", size, w.cfg.maxBlockSize)
 	}
-	sb := signBlock(b, publisherKey)
+	var sb coin.SignedBlock
+	if executed != nil {
+		sb = *executed
+	} else {
+		sb = signBlock(b, publisherKey)
+	}
 	// (a) an independent model of a node with the same chain accepts it
 	if ok, why := pub.m.CheckBlock(&sb); !ok {
 		t.Fatalf("block created by the publisher is not acceptable to an independent node: %s\n header %+v\n history:\n  %s", why, sb.Head, w.history())
 	}
-	if err := pub.v.ExecuteSignedBlock(sb); err != nil {
-		t.Fatalf("publisher rejects its own block: %v\n history:\n  %s", err, w.history())
+	if executed == nil {
+		if err := pub.v.ExecuteSignedBlock(sb); err != nil {
+			t.Fatalf("publisher rejects its own block: %v\n history:\n  %s", err, w.history())
+		}
 	}
 	w.checkHours(t, pub, sb)
 	pub.m.Apply(sb)
